@@ -13,6 +13,7 @@ CHECKS = {
     "C30": "aggregator",
     "C37": "activeusers",
     "C38": "engineids",
+    "C31": "methodsave",
 }
 
 MC = "model_checking"
@@ -104,4 +105,13 @@ CLAIMS = {
             "to the real id function; TLC checks injectivity and classifies a collision by whether the separator explains it; "
             "random register / connect / disconnect histories over colliding and distinct engines check the takeover rule.",
             "Thin oracle (equality of ids); level exploration.", "7 C38"),
+    "C31": (MC, "TLA+ spec MethodSave.tla: TLC refutes the unserialized check/round-trip/commit protocol (lost update) and verifies "
+                "the serialized one; every interleaving of the unserialized state graph replayed on the real save_method coroutines "
+                "with a gated fake engine; outcomes judged by the monitor MethodSaveTrace.tla",
+            "All interleavings of 2 (thorough 3) save requests with bases 0..2 and every order / outcome of the engine replies; "
+            "each is executed on real concurrent FromFrontend.save_method coroutines, the engine round trip being a future the "
+            "harness resolves in the prescribed order; TLC checks accepted-only-on-current-version, at most one accepted per base, "
+            "version + 1 per accept, returned version, and that every save completes.",
+            "Trusted: fake dispatcher rpc_call; an interleaving answering a request the implementation has not forwarded is skipped.",
+            "6.7, 7 C31"),
 }
